@@ -65,6 +65,8 @@ type DocSpec struct {
 	Customer  string    `json:"customer,omitempty"`   // tax country of the customer
 	ComboCtry string    `json:"combo_country,omitempty"`
 	Rows      []RowSpec `json:"rows"`
+	// dates path (dates.go): the spelling of a date leaf — issue_date | value_date | op_date → spelling
+	Leaves map[string]string `json:"date_leaves,omitempty"`
 }
 
 // EditSpec is what is changed on the calculated in-memory document before it is calculated again.
@@ -157,6 +159,7 @@ func buildRowsJSON(cs Case) []byte {
 		doc["value_date"] = isoDate(cs.Date)
 		doc["issue_date"] = isoDate(addDays(mkDate(cs.Date), 400))
 	}
+	writeLeaves(doc, cs)
 	if len(cs.Tags) > 0 {
 		doc["$tags"] = cs.Tags
 	}
@@ -186,6 +189,7 @@ type docView struct {
 	regime    *tax.Regime
 	issue     *cal.Date
 	value     **cal.Date
+	op        **cal.Date // nil: the kind has no operation date
 	customer  **org.Party
 	calc      func() error
 }
@@ -197,7 +201,7 @@ func parseDoc(kind string, data []byte) (*docView, error) {
 		if err := json.Unmarshal(data, d); err != nil {
 			return nil, err
 		}
-		return &docView{doc: d, lines: d.Lines, discounts: d.Discounts, charges: d.Charges, tags: &d.Tags, regime: &d.Regime, issue: &d.IssueDate, value: &d.ValueDate, customer: &d.Customer, calc: d.Calculate}, nil
+		return &docView{doc: d, lines: d.Lines, discounts: d.Discounts, charges: d.Charges, tags: &d.Tags, regime: &d.Regime, issue: &d.IssueDate, value: &d.ValueDate, op: &d.OperationDate, customer: &d.Customer, calc: d.Calculate}, nil
 	case "delivery":
 		d := new(bill.Delivery)
 		if err := json.Unmarshal(data, d); err != nil {
@@ -209,7 +213,7 @@ func parseDoc(kind string, data []byte) (*docView, error) {
 		if err := json.Unmarshal(data, d); err != nil {
 			return nil, err
 		}
-		return &docView{doc: d, lines: d.Lines, discounts: d.Discounts, charges: d.Charges, tags: &d.Tags, regime: &d.Regime, issue: &d.IssueDate, value: &d.ValueDate, customer: &d.Customer, calc: d.Calculate}, nil
+		return &docView{doc: d, lines: d.Lines, discounts: d.Discounts, charges: d.Charges, tags: &d.Tags, regime: &d.Regime, issue: &d.IssueDate, value: &d.ValueDate, op: &d.OperationDate, customer: &d.Customer, calc: d.Calculate}, nil
 	}
 }
 
@@ -369,6 +373,10 @@ func (v *docView) apply(ed *EditSpec, rows []RowSpec) {
 
 // expectedTaxDate is the tax date the case's description gives the document (after the edit, if any).
 func expectedTaxDate(cs Case) [3]int {
+	if cs.Doc.Leaves != nil {
+		d, _ := statedTaxDate(cs)
+		return d
+	}
 	issue, value := cs.Date, (*[3]int)(nil)
 	if cs.Doc.ValueDate {
 		d := cs.Date
@@ -415,6 +423,7 @@ func prepareRows(c *core.Ctx, cs Case) *evaluated {
 		return e
 	}
 	c.Count("path:"+cs.Path, 1)
+	v.setLeaves(cs)
 	var first, fresh *docRead
 	var out docRead
 	if cs.Edit == nil {
@@ -468,7 +477,7 @@ func prepareRows(c *core.Ctx, cs Case) *evaluated {
 			fail("panic", what()+": Calculate panicked: "+out.Err, detail)
 			return
 		}
-		if want := expectedTaxDate(cs); out.TaxDate != want {
+		if want := expectedTaxDate(cs); out.TaxDate != want && !filledWithToday(cs, out) {
 			fail("tax-date", fmt.Sprintf("%s: the document's tax date is %v, expected %v", what(), out.TaxDate, want), detail)
 			return
 		}
